@@ -390,7 +390,9 @@ def directed_histories():
     hs = []
     tour = [E(a="v1", b="v1"), {"op": "start"}, call("validate_flows"), call("doctor", "GET"), call("handshake", "GET"), call("discover", "GET"),
             {"op": "statefile", "which": "discover", "tag": "s1"}, call("discover", "GET"), call("remedy_stats", "GET"),
-            {"op": "statefile", "which": "remedy", "tag": "s2"}, call("remedy_stats", "GET")]
+            {"op": "statefile", "which": "remedy", "tag": "s2"}, call("remedy_stats", "GET"),
+            {"op": "statefile", "which": "discover", "tag": "s2"}, call("discover", "GET"), {"op": "statefile", "which": "remedy", "tag": "s1"},
+            call("remedy_stats", "GET"), {"op": "statefile", "which": "discover", "tag": "absent"}, call("discover", "GET")]
     for t in (T(a="v2", b="bad"), T(a="v2", b="junk"), T(a="v2", b="rep"), T(a="v2", b="dup"), T(b="dup"), T(a="v3", b="lim"),
               T(a="v3", b="lim", q="q1"), T(a="v3", q="qbad"), T(a="v3", q="qjunk"), T(a="v3", g="gbad"), T(), T(q="q1")):
         tour += [{"op": "edit", "tree": t}, call("validate_flows"), call("load_flows"), call("doctor", "GET")]
@@ -408,7 +410,8 @@ def directed_histories():
                   call("apply_flows", "PUT", payload={A: "v3"}), call("apply_flows", "PUT", payload={A: "v1", B: "junk"}),
                   call("apply_flows", "PUT", payload={Q: "q1"}), call("apply_flows", "PUT", payload={B: "lim", Q: "q1", G: "g1"}),
                   call("apply_flows", "PUT", payload={}), call("configuration", "PUT", payload={}), call("configuration", "PUT", raw="{nojson"),
-                  call("apply_flows", "POST", payload={A: "v1"}), call("doctor", "GET"),
+                  call("apply_flows", "POST", payload={A: "v1"}), call("apply_flows", "PUT", payload={A: "v1"}),
+                  call("configuration", "GET", payload={A: "v2"}), call("configuration", "PUT", payload={A: "v2"}), call("doctor", "GET"),
                   {"op": "hapfail", "nth": 1}, E(a="v2"), call("load_flows"), call("doctor", "GET"), call("load_flows"),
                   {"op": "hapfail", "nth": 1}, E(a="v3", b="v1"), call("validate_flows"), call("load_flows"), call("load_flows"),
                   {"op": "hapfail", "nth": 2}, call("configuration", "PUT", payload={A: "v1", B: "v2"}), call("doctor", "GET")]))
@@ -427,6 +430,8 @@ def directed_histories():
                   call("doctor", "GET")]))
     ptour = [pol_edit("P1"), {"op": "start"}, call("validate_policies"), call("doctor", "GET"), call("handshake", "GET"),
              {"op": "statefile", "which": "discover", "tag": "s2"}, call("discover", "GET"), call("remedy_stats", "GET"),
+             {"op": "statefile", "which": "discover", "tag": "s1"}, call("discover", "GET"), {"op": "statefile", "which": "remedy", "tag": "s1"},
+             call("remedy_stats", "GET"), {"op": "statefile", "which": "remedy", "tag": "absent"}, call("remedy_stats", "GET"),
              pol_edit("P2"), call("validate_policies"), call("apply_policies"), call("doctor", "GET"),
              call("revert_to_diagnosis_free"), call("doctor", "GET"), call("revert_to_last_loaded")]
     for t in POL_BAD:
@@ -802,15 +807,22 @@ def run(ctx):
     for name, ex in sorted(stats["dev_examples"].items()):
         ctx.notes.append("example %s: %s" % (name, json.dumps(ex, sort_keys=True)[:900]))
     # vacuity of the recorded part: every route of both modes answered, both verdicts of every validating / loading endpoint seen
-    need = ["POST validate_flows 200", "POST validate_flows 422", "POST load_flows 200", "POST load_flows 400", "PUT configuration 200",
-            "PUT apply_flows 200", "POST validate_policies 200", "POST validate_policies 422", "POST apply_policies 200", "POST apply_policies 422",
-            "POST revert_to_last_loaded 200", "POST revert_to_diagnosis_free 200", "GET doctor 200", "GET handshake 200", "GET discover 200",
-            "GET remedy_stats 200", "PUT on_haproxy_error 200"]
-    missing = [k for k in need if k not in stats["answers"]]
-    if missing or not any(k.endswith(" 404") for k in stats["answers"]) or not any(k.endswith(" 405") for k in stats["answers"]):
-        raise Broken("vacuous run: answers never observed: %s" % (missing or "404 / 405"))
-    if T and not any(k.endswith(" 226") for k in stats["answers"]):
-        raise Broken("vacuous run: no request was refused with 226 while an update was parked")
+    seen_kind = set()
+    for k in stats["answers"]:
+        m, ep, code = k.split(" ")
+        code = int(code)
+        seen_kind.add("%s %s %s" % (m, ep, "accepted" if 200 <= code <= 299 else "refused" if code >= 400 and code not in (404, 405) else str(code)))
+    need = ["POST validate_flows accepted", "POST validate_flows refused", "POST load_flows accepted", "POST load_flows refused",
+            "PUT configuration accepted", "PUT configuration refused", "PUT apply_flows accepted", "PUT apply_flows refused",
+            "POST validate_policies accepted", "POST validate_policies refused", "POST apply_policies accepted", "POST apply_policies refused",
+            "POST revert_to_last_loaded accepted", "POST revert_to_diagnosis_free accepted", "GET doctor accepted", "GET handshake accepted",
+            "GET discover accepted", "GET discover refused", "GET remedy_stats accepted", "PUT on_haproxy_error accepted"]
+    missing = [k for k in need if k not in seen_kind]
+    if not ctx.violations:        # (a run that found violations is not vacuous, whatever else it did not see)
+        if missing or not any(k.endswith(" 404") for k in stats["answers"]) or not any(k.endswith(" 405") for k in stats["answers"]):
+            raise Broken("vacuous run: answers never observed: %s" % (missing or "404 / 405"))
+        if not any(k.endswith(" 226") for k in stats["answers"]):
+            raise Broken("vacuous run: no request was refused with 226 while an update was parked")
     if UNREPRODUCED:
         ctx.notes.append("rejections not reproduced by re-execution: %s" % json.dumps(UNREPRODUCED)[:1500])
         if not ctx.violations:
